@@ -298,28 +298,12 @@ func (o *FilterOptimizer) optimizeLtLteExpr(e *BinaryOpExpr) *ScanType {
 }
 
 func (o *FilterOptimizer) optimizePrefixMatchExpr(e *BinaryOpExpr) *ScanType {
-	var (
-		field KVKeyword = ValueKW
-		key   []byte    = nil
-	)
-
-	switch left := e.Left.(type) {
-	case *StringExpr:
-		key = []byte(left.Data)
-	case *FieldExpr:
-		field = left.Field
-	}
-
-	switch right := e.Right.(type) {
-	case *StringExpr:
-		key = []byte(right.Data)
-	case *FieldExpr:
-		field = right.Field
-	}
+	field, key, literalOnLeft := keyAndLiteral(e)
 
 	// Is Key prefix scan value and value can calculate in query,
-	// return PREFIX scan
-	if field == KeyKW && key != nil {
+	// return PREFIX scan ('abc' ^= key asks whether key is a prefix of
+	// 'abc', that is not a prefix scan)
+	if field == KeyKW && key != nil && !literalOnLeft {
 		return &ScanType{PREFIX, [][]byte{key}}
 	}
 	// If not just return FULL scan
